@@ -15,7 +15,7 @@ func init() {
 	register(&Property{
 		ID:        "C04",
 		Technique: "static analysis: ORDER rules on register-before-propose, argument provenance of request ids and reply values at every Trigger site of package node, static type of the reply value outside the apply path, who-may-write agreement of the two batch reply lists, return classification of the client-side waiter",
-		Explanation: "Decides one structural ingredient of C04 that no other property covers — the reply plumbing: a success a client sees is the state machine's result for its own request, produced on apply. (W1) the waiter is registered under the request's id before the entry is proposed, and the proposed entry carries that id; every redis write header takes a fresh id from the node's generator; (W2) in ApplyRaftRequest every reply goes to the id of the request being applied (its header id, or the list id when that is 0), and a result value is handed out only on the success path of this very request's handler call; (W3) a batched request's id and result are appended together, reset together, and CommitBatch pairs element i of one list with element i of the other, sending results only when the batch commit returned no error; (W4) outside the functions reached from the apply loop, Trigger is only ever called with a value of static type error (a non-error reply can only originate on the apply path); (W5) the client-side waiter returns a result only when it came from the registered wait (never on timeout or cancellation) and turns an error result into an error.",
+		Explanation: "Decides one structural ingredient of C04 that no other property covers — the reply plumbing: a success a client sees is the state machine's result for its own request, produced on apply. (W1) the waiter is registered under the request's id before the entry is proposed, and the proposed entry carries that id; every redis write header takes a fresh id from the node's generator; (W2) in ApplyRaftRequest every reply goes to the id of the request being applied (its header id, or the list id when that is 0), and a result value is handed out only on the success path of this very request's handler call; (W3) a batched request's id and result are appended together, reset together, and CommitBatch pairs element i of one list with element i of the other, sending results only when the batch commit returned no error; (W4) outside the functions reached from the apply loop, Trigger is only ever called with a value of static type error (a non-error reply can only originate on the apply path); (W5) the client-side waiter returns a result only when it came from the registered wait (never on timeout or cancellation) and turns an error result into an error. W1 also: the proposed entry owns its bytes (copied out of the pooled marshal buffer), a recycled waiter starts with an empty completion channel, and a pooled request header is emptied before it goes back to the pool. (W6) raft acknowledgements leave a replica only after persistence: the C03-P1 obligations.",
 		NotDecided: "linearizability itself: the single point between request and reply, the agreement of replicas on one order (C02, C07), survival of acknowledged writes across kills and leader transfer (C03, C06), at-most-once effect of writes that got an error or no reply (a timed-out proposal may still commit: by design the client is told an error), duplicate proposals by client retries.",
 		Assumptions: []string{"path conditions as in C01", "pkg/wait delivers a triggered value to the waiter registered under that id"},
 		Run:         runC04,
@@ -81,6 +81,38 @@ func runC04(c *Ctx) {
 			r.Check("C04-W1", l.Func+": a request header gets a fresh id from the node's generator (0 = the list id is used)", c.P.Pos(l.Pos), ok2, "ID: "+t)
 		}
 		r.Min("C04-W1", n, 5, "RequestHeader literals with an ID")
+	}
+
+	// a pooled request header goes back to the pool empty: a request left in it would be proposed (and applied) again with
+	// the next write that picks the header up
+	if u := c.unit("C04-W1", "node.(*waitReqHeaders).release"); u != nil {
+		put := an.AnyCall().Where("pool.Put", func(u *an.Unit, s *an.Site) bool { return strings.HasSuffix(an.CalleeName(s), "sync.(*Pool).Put") })
+		reset := an.StoreTerm("recv.reqs.Reqs").Where("[:0]", func(u *an.Unit, s *an.Site) bool { return s.RHS != nil && u.C.Term(s.RHS) == "recv.reqs.Reqs[:0]" })
+		r.Order("C04-W1", u, put, []an.M{reset}, an.OrderOpts{Min: 1})
+		r.Order("C04-W1", u, put, []an.M{an.StoreTerm("recv.wr")}, an.OrderOpts{Min: 1})
+	}
+	// acknowledgements leave a replica only after what they acknowledge is durable: the C03-P1/P2 obligations, reported
+	// here as W6 because an early MsgAppResp is exactly an acknowledged write that a kill can lose
+	r.Clause("C04-W6", "raft acknowledgements leave only after persistence (same obligations as C03-P1)")
+	{
+		sub := an.NewReport("C04")
+		runC03(&Ctx{P: c.P, W: c.W, R: sub, Tier: c.Tier})
+		n := 0
+		for _, ob := range sub.Obligations {
+			if ob.Rule != "C03-P1" {
+				continue
+			}
+			n++
+			switch ob.Status {
+			case "ok":
+				r.Ok("C04-W6", ob.Construct, ob.Pos, ob.Detail)
+			case "VIOLATION":
+				r.Bad("C04-W6", ob.Construct, ob.Pos, ob.Detail)
+			default:
+				r.Unknown("C04-W6", ob.Construct, ob.Pos, ob.Detail)
+			}
+		}
+		r.Min("C04-W6", n, 2, "C03-P1 obligations")
 	}
 
 	// ---- W2
